@@ -13,22 +13,27 @@ use lumina_node::verif::peer_tracker::Tracker;
 use verif_harness::*;
 
 const N_PEERS: usize = 8;
+/// number of distinct peer ids the harness can name (S10: the size-threshold phases go up to 2049 peers)
+const N_IDS: usize = 2112;
 
 struct C39 {
     tracker: Tracker,
     ids: Vec<PeerId>,
+    idx: std::collections::HashMap<PeerId, usize>,
 }
 
 impl C39 {
     fn new() -> Self {
-        C39 { tracker: Tracker::new(), ids: (0..64).map(|_| PeerId::random()).collect() }
+        let ids: Vec<PeerId> = (0..N_IDS).map(|_| PeerId::random()).collect();
+        let idx = ids.iter().enumerate().map(|(i, id)| (*id, i)).collect();
+        C39 { tracker: Tracker::new(), ids, idx }
     }
     fn peer(&self, line: &str) -> PeerId {
         let p = arg_u64(line, "p").expect("p") as usize;
         self.ids[p % self.ids.len()]
     }
     fn idx(&self, id: &PeerId) -> usize {
-        self.ids.iter().position(|x| x == id).expect("known peer")
+        *self.idx.get(id).expect("known peer")
     }
     fn dump(&mut self, ret: Option<bool>) -> String {
         let ev: Vec<String> = self
@@ -137,6 +142,12 @@ impl Prop for C39 {
          add_peer_id, gc, passage of time, protected_len queries) over up to 8 peers x 3 connections each and \
          tags 0..3 (plus rare foreign connection ids / large tags), 30..120 events per history, histories \
          separated by `reset`; phases biased towards connecting, disconnecting, protecting and expiring. \
+         Size-threshold phases (S10, tags big/.. and thr/..): histories that connect n peers one by one (quick n = 9, 17, 33, \
+         65, 129, 513; thorough also 8, 10, 11, 16, 32, 64, 128, 257, 512, 1025), most of them protected with one shared tag, \
+         run random events over all n and tear them down in batches with expiry and gc (every count 1..n is passed; \
+         the largest history of a tier is torn down only partially); one peer with k simultaneous connections and \
+         pings on them, and one peer with k protection tags / k counter entries (quick k = 8, 9, 16, 17, 32, 33, 64, 65, 129; \
+         thorough also 7, 15, 31, 63, 127, 128, 513, 1025); gc ages 119/120/121 s. \
          Non-trivial = an event at position >= 6 of its history (the tracker holds several peers by then); \
          distinct = distinct (event, full observed tracker state) lines."
     }
@@ -190,6 +201,30 @@ impl Prop for C39 {
                 out.op(line, tagname, nt);
             }
             out.op("reset", "reset", false);
+        }
+        // ---- S10 size-threshold stress: appended phases (each history ends with its own `reset`) ----
+        // (a) many PEERS: the tracker is filled to n connected peers one by one (so every count 1..n,
+        //     in particular 8/9, 16/17, 32/33, 64/65, 128/129, 512/513, is passed on the way up and down)
+        let peer_sizes: &[usize] = if tier == Tier::Thorough {
+            &[8, 9, 10, 11, 16, 17, 32, 33, 64, 65, 128, 129, 257, 512, 513, 1025]
+        } else {
+            &[9, 17, 33, 65, 129, 513]
+        };
+        for &n in peer_sizes {
+            // the largest histories (quick: 513 peers, thorough: 1025) are torn down only partially: the Lean spec
+            // driver is quadratic in the number of tracked peers per op and is the bottleneck; the way down is
+            // covered up to 129 (quick) / 513 (thorough) peers
+            big_peers_history(rng, out, n, n <= 129 || (tier == Tier::Thorough && n <= 513));
+        }
+        // (b) many CONNECTIONS of one peer, (c) many protection TAGS of one peer / many counter entries
+        let ks: &[usize] = if tier == Tier::Thorough {
+            &[7, 8, 9, 15, 16, 17, 31, 32, 33, 63, 64, 65, 127, 128, 129, 513, 1025]
+        } else {
+            &[8, 9, 16, 17, 32, 33, 64, 65, 129]
+        };
+        for &k in ks {
+            many_conns_history(rng, out, k);
+            many_tags_history(rng, out, k);
         }
     }
     fn run(&mut self, line: &str) -> String {
@@ -269,8 +304,187 @@ impl Prop for C39 {
     fn result_tag(&self, _line: &str, result: &str) -> Option<String> {
         // histogram by number of connected peers
         let info = arg(result, "info")?;
-        Some(format!("connected={}", info.split(',').next()?))
+        let n: usize = info.split(',').next()?.parse().ok()?;
+        // S10: sizes above 8 are bucketed at the thresholds 8/9, 16/17, 32/33, ... so the histogram stays small
+        Some(match n {
+            0..=8 => format!("connected={n}"),
+            9..=16 => "connected=9..16".into(),
+            17..=32 => "connected=17..32".into(),
+            33..=64 => "connected=33..64".into(),
+            65..=128 => "connected=65..128".into(),
+            129..=512 => "connected=129..512".into(),
+            513..=1024 => "connected=513..1024".into(),
+            _ => "connected>=1025".into(),
+        })
     }
+}
+
+/// S10 (a): n peers connected one by one (random order), decorated (trusted / full / archival / protected
+/// with a SHARED tag, so `protected_len` reaches large counts), a short random middle part over all n peers,
+/// then everything is unprotected, disconnected and collected in batches.  The generator keeps a shadow of
+/// connections and tags so that no disconnected peer stays tracked for long (its age is printed in whole
+/// seconds of real + advanced time; a long-lived disconnected peer could tick over during a slow run).
+fn big_peers_history(rng: &mut Rng, out: &mut Emitter, n: usize, full_teardown: bool) {
+    use std::collections::BTreeSet;
+    let mut conns: Vec<BTreeSet<usize>> = vec![BTreeSet::new(); n + 2];
+    let mut tags: Vec<BTreeSet<u64>> = vec![BTreeSet::new(); n + 2];
+    let cid = |p: usize, k: usize| 10_000 + p * 4 + k;
+    let mut order: Vec<usize> = (0..n).collect();
+    rng.shuffle(&mut order);
+    for (i, &p) in order.iter().enumerate() {
+        let nt = i >= 6;
+        out.op(format!("conn p={p} c={}", cid(p, 0)), "big/conn", nt);
+        conns[p].insert(cid(p, 0));
+        match rng.below(8) {
+            0 => out.op(format!("trust p={p} v=1"), "big/trust", nt),
+            1 => out.op(format!("agent p={p} s={}", rng.pick(&AGENTS[..4])), "big/agent", nt),
+            2 => out.op(format!("archival p={p}"), "big/archival", nt),
+            3 => {
+                out.op(format!("conn p={p} c={}", cid(p, 1)), "big/conn", nt);
+                conns[p].insert(cid(p, 1));
+            }
+            _ => {}
+        }
+        // most peers share tag 0, so the per-tag counter grows with the number of peers
+        if !rng.chance(1, 5) {
+            let t = if rng.chance(1, 6) { rng.below(4) } else { 0 };
+            out.op(format!("protect p={p} tag={t}"), "big/protect", nt);
+            tags[p].insert(t);
+        }
+    }
+    for t in 0..4 {
+        out.op(format!("plen tag={t}"), "big/plen", true);
+    }
+    out.op("gc", "big/gc", true);
+    // middle: random events over all n peers (and the two untracked ids n, n+1)
+    for _ in 0..rng.usize(30, 50) {
+        let p = rng.usize(0, n + 1);
+        let k = rng.usize(0, 2);
+        let c = cid(p, k);
+        let t = rng.below(4);
+        match rng.below(12) {
+            0 | 1 => {
+                out.op(format!("conn p={p} c={c}"), "big/conn", true);
+                conns[p].insert(c);
+            }
+            2 | 3 => {
+                out.op(format!("disc p={p} c={c}"), "big/disc", true);
+                conns[p].remove(&c);
+            }
+            4 => out.op(format!("trust p={p} v={}", rng.below(2)), "big/trust", true),
+            5 => {
+                out.op(format!("protect p={p} tag={t}"), "big/protect", true);
+                tags[p].insert(t);
+            }
+            6 => {
+                out.op(format!("unprotect p={p} tag={t}"), "big/unprotect", true);
+                tags[p].remove(&t);
+            }
+            7 => out.op(format!("agent p={p} s={}", rng.pick(AGENTS)), "big/agent", true),
+            8 => out.op(format!("ping p={p} c={c} ms={}", rng.range(1, 500)), "big/ping", true),
+            9 => out.op(format!("plen tag={t}"), "big/plen", true),
+            10 => out.op("gc", "big/gc", true),
+            _ => out.op(format!("archival p={p}"), "big/archival", true),
+        }
+    }
+    // disconnected-but-protected peers are released, then everything disconnected expires
+    for p in 0..n + 2 {
+        if conns[p].is_empty() {
+            for t in std::mem::take(&mut tags[p]) {
+                out.op(format!("unprotect p={p} tag={t}"), "big/unprotect", true);
+            }
+        }
+    }
+    out.op("advance secs=121", "big/advance", true);
+    out.op("gc", "big/gc", true);
+    // teardown in batches of 32 peers: unprotect, disconnect, let them expire, collect
+    rng.shuffle(&mut order);
+    for (i, &p) in order.iter().enumerate() {
+        if !full_teardown && i >= 70 {
+            break;
+        }
+        for t in std::mem::take(&mut tags[p]) {
+            out.op(format!("unprotect p={p} tag={t}"), "big/unprotect", true);
+        }
+        for c in std::mem::take(&mut conns[p]) {
+            out.op(format!("disc p={p} c={c}"), "big/disc", true);
+        }
+        if i % 32 == 31 || i + 1 == n {
+            out.op(format!("advance secs={}", *rng.pick(&[119u64, 120, 121, 121, 121])), "big/advance", true);
+            out.op("gc", "big/gc", true);
+            out.op("advance secs=2", "big/advance", true);
+            out.op("gc", "big/gc", true);
+        }
+    }
+    out.op("reset", &format!("big/done-peers={n}"), false);
+}
+
+/// S10 (b): one peer with k simultaneous connections (and a second one with k-1), pings on all of them
+/// (best ping = minimum over k), then all but the last connection are closed, then the last
+fn many_conns_history(rng: &mut Rng, out: &mut Emitter, k: usize) {
+    let mut cs: Vec<usize> = (0..k).map(|j| 20_000 + j).collect();
+    rng.shuffle(&mut cs);
+    out.op("trust p=0 v=1", "thr/conns-trust", false);
+    out.op("conn p=2 c=5", "thr/conns-conn", false);
+    for (i, &c) in cs.iter().enumerate() {
+        out.op(format!("conn p=0 c={c}"), "thr/conns-conn", i >= 6);
+        if i + 1 < k {
+            out.op(format!("conn p=1 c={}", c + 5000), "thr/conns-conn", i >= 6);
+        }
+        if rng.chance(1, 2) {
+            let ms = if rng.chance(1, 6) { "fail".to_string() } else { rng.range(1, 900).to_string() };
+            out.op(format!("ping p=0 c={c} ms={ms}"), "thr/conns-ping", i >= 6);
+        }
+    }
+    out.op("agent p=0 s=celestia-node/celestia/bridge/v0.24.1/fb95d45", "thr/conns-agent", true);
+    out.op("gc", "thr/conns-gc", true);
+    rng.shuffle(&mut cs);
+    for &c in &cs {
+        if rng.chance(1, 3) {
+            out.op(format!("ping p=0 c={c} ms={}", rng.range(1, 900)), "thr/conns-ping", true);
+        }
+        out.op(format!("disc p=0 c={c}"), "thr/conns-disc", true);
+        out.op(format!("disc p=1 c={}", c + 5000), "thr/conns-disc", true);
+    }
+    out.op("advance secs=121", "thr/conns-advance", true);
+    out.op("gc", "thr/conns-gc", true);
+    out.op("reset", &format!("thr/done-conns={k}"), false);
+}
+
+/// S10 (c): one peer protected with k distinct tags (the protect counter holds k entries), a second peer
+/// with the first k-1 of them, `protected_len` of every tag, then everything is unprotected again
+fn many_tags_history(rng: &mut Rng, out: &mut Emitter, k: usize) {
+    let mut ts: Vec<u64> = (0..k as u64).map(|j| if j % 5 == 4 { 4_000_000_000 + j } else { 100 + j }).collect();
+    rng.shuffle(&mut ts);
+    out.op("conn p=0 c=1", "thr/tags-conn", false);
+    out.op("conn p=1 c=2", "thr/tags-conn", false);
+    for (i, &t) in ts.iter().enumerate() {
+        out.op(format!("protect p=0 tag={t}"), "thr/tags-protect", i >= 6);
+        if i + 1 < k {
+            out.op(format!("protect p=1 tag={t}"), "thr/tags-protect", i >= 6);
+        }
+    }
+    // peer 1 is disconnected only for a few ops (its age is printed in whole seconds): expired but protected
+    out.op("disc p=1 c=2", "thr/tags-disc", true);
+    out.op("advance secs=500", "thr/tags-advance", true);
+    out.op("gc", "thr/tags-gc", true);
+    for &t in ts.iter().take(12) {
+        out.op(format!("plen tag={t}"), "thr/tags-plen", true);
+    }
+    out.op("conn p=1 c=3", "thr/tags-conn", true);
+    rng.shuffle(&mut ts);
+    for (i, &t) in ts.iter().enumerate() {
+        out.op(format!("unprotect p=0 tag={t}"), "thr/tags-unprotect", true);
+        out.op(format!("unprotect p=1 tag={t}"), "thr/tags-unprotect", true);
+        if i % 16 == 3 {
+            out.op("gc", "thr/tags-gc", true);
+        }
+    }
+    out.op("disc p=1 c=3", "thr/tags-disc", true);
+    out.op("disc p=0 c=1", "thr/tags-disc", true);
+    out.op("advance secs=121", "thr/tags-advance", true);
+    out.op("gc", "thr/tags-gc", true);
+    out.op("reset", &format!("thr/done-tags={k}"), false);
 }
 
 fn main() {
